@@ -268,7 +268,7 @@ func c04Run(c *Ctx) {
 	}
 	// 4c. long call histories: a call is correct however many calls (of built-ins, of user functions,
 	// finished or still active) the run has already made
-	for _, n := range []int{c.N(150000, 2500000), c.N(70000, 1100000)} {
+	for _, n := range []int{c.N(260000, 2500000), c.N(70000, 1100000)} {
 		N := fmt.Sprint(n)
 		for _, src := range []string{
 			Lines(Fun("sq", "x", " "+Ret("x * x")+" "), Var("i", "0"), Var("s", "0"), While("i < "+N, "{ s = s + "+BI("abs", "-1")+"; i = i + 1; }"), Print("s"), Print(BI("len", "[1, 2]")), Print("sq(7)")),
@@ -338,6 +338,11 @@ func c04Handwritten() []string {
 			Fun("mk", "\u09b8\u09ae\u09df", " "+Fun("up", "\u09ac\u09dc", " \u09b8\u09ae\u09df = \u09b8\u09ae\u09df + \u09ac\u09dc; "+Ret("\u09b8\u09ae\u09df")+" ")+" "+Ret("up")+" "), Var("u1", "mk(1)"), Var("u2", "mk(100)"), Print("u1(1)"), Print("u2(1)"), Print("u1(5)")),
 		// a return without a value yields nil whatever earlier calls returned
 		Lines(Fun("sq", "x", " "+Ret("x * x")+" "), Fun("note", "m", " "+If(`m == ""`, "{ "+Ret("")+" }")+" "+Ret("m")+" "), Print("sq(7)"), Print(`note("")`), Print(`note("x")`), Print(`note("")`), Fun("none", "", " "+Ret("")+" "), Print("[sq(2), none(), sq(3), none()]")),
+		// the operand of ফেরত may start on the following line or after a comment
+		Lines(Fun("fib", "n", " "+If("n < 2", "{ "+K["return"]+"\n n; }")+"\n"+K["return"]+"\n fib(n - 1) + fib(n - 2);\n"), Print("fib(10)"), Fun("pick", "xs, want", "\n"+For(Var("i", "0"), "i < "+BI("len", "xs"), "i = i + 1", "{ "+If("xs[i] == want", "{ "+K["return"]+" // found\n i; }")+" }")+"\n"+K["return"]+" /* none */\n -1;\n"), Print("pick([4, 5, 6], 5)"), Print("pick([4], 9)"),
+			Fun("cnt", "", " "+Var("n", "0")+" "+Fun("up", "", " n = n + 1; "+K["return"]+"\n\n n; ")+" "+K["return"]+"\n up; "), Var("u", "cnt()"), Print("u()"), Print("u()")),
+		// arguments are evaluated (and must be valid) whatever the callee does with them
+		Lines(Var("ticks", "0"), Fun("tick", "", " ticks = ticks + 1; "+Ret("ticks")+" "), Fun("debug", "msg", " "), Fun("noop", "a, b", " // nothing\n "), `debug("step " + tick());`, "noop(tick(), tick());", Print("ticks"), Var("handler", "nil"), Print(`"before"`), "noop(1, handler(1));", Print(`"AFTER"`)),
 		// one call expression executed several times while what its callee name denotes changes in between
 		Lines(Fun("greet", "", " "+Ret(`"hi"`)+" "), Fun("other", "", " "+Ret(`"yo"`)+" "), Fun("run", "", " "+Ret("greet()")+" "), Print("run()"), "greet = other;", Print("run()"), "greet = 7;", Print(`"before"`), Print("run()"), Print(`"AFTER"`)),
 		Lines(Fun("plus", "a", " "+Ret("a + 1")+" "), Fun("times", "a", " "+Ret("a * 3")+" "), Var("acc", "1"), For(Var("i", "0"), "i < 4", "i = i + 1", "{ acc = plus(acc); "+If("i == 1", "{ plus = times; }")+" }"), Print("acc")),
